@@ -7,9 +7,12 @@
    state + trace + failure-plan monad:
      do_op e    a call of a DeviceControl / PayloadStream method (directly, or through a GenApi
                 node: a register write / read ends in ctrl.write / ctrl.read).  It is the k-th
-                fallible operation of the current call; when the plan fails k it returns its error
-                WITHOUT any effect and the `?` of the Rust code leaves the method; otherwise its
-                effect is appended to the trace and applied to the state.
+                fallible operation of the current call; when the plan fails k with a fault of class
+                cls (Io, Timeout, Disconnected, ...) it returns the error of that class, wrapped by the
+                layer it went through (GenApiDevice::read_mem / write_mem pass a ControlError on
+                unchanged — no retry, no translation), WITHOUT any effect, and the `?` of the Rust
+                code leaves the method; otherwise its effect is appended to the trace and applied to
+                the state.  Every do_op is logged in the device log of the call (m_att), failed or not.
      need b e   a host-side check ending in `?` (params_ctxt -> GenApiContextMissing, expect_node!
                 -> InvalidGenApiXml, `if is_loop_running { return Err(InStreaming) }`).
      emit e     an infallible host-side step (self.ctxt = Some(..), ctxt.clear_cache()).
@@ -25,13 +28,16 @@
 From Cam Require Export Outcome CameraProto.
 
 (* error classes (numbers = rust/h_camera eclass) *)
-Definition E_CTRL_IO : Z := 10.
-Definition E_STRM_IO : Z := 11.
+(* a failing DeviceControl / PayloadStream operation fails with a fault of some CLASS k (0 Io, 1 Timeout,
+   2 Disconnected, 3 Busy / ReceiveError, 4 NotOpened / SendError, 5 InvalidData / InvalidPayload,
+   6 InvalidDevice / Poisoned, 7 BufferTooSmall); the caller sees base + k *)
+Definition E_CTRL : Z := 100.            (* CameleonError::ControlError(class k) *)
+Definition E_STRM : Z := 200.            (* CameleonError::StreamError(class k) *)
 Definition E_IN_STREAMING : Z := 12.
 Definition E_CTXT_MISSING : Z := 13.
 Definition E_INVALID_XML : Z := 14.
-Definition E_GENAPI_DEVICE : Z := 15.
-Definition E_CTRL_INVALID_DATA : Z := 17.
+Definition E_GENAPI_DEVICE : Z := 300.   (* GenApiError::Device(ControlError of class k) *)
+Definition E_CTRL_INVALID_DATA : Z := 105.
 
 (* GenApi context: which SFNC nodes the description defines with the right interface, and which
    register values are cached (TLParamsLocked: the cached value). *)
@@ -61,13 +67,16 @@ Definition dev_of (s : cam) : dev :=
 (* error a failing operation surfaces as, seen by the caller of the Camera method:
    ctrl.* -> CameleonError::ControlError(Io), strm.* -> StreamError(Io), a register access through
    a GenApi node -> GenApiError::Device *)
-Definition err_of (e : effect) : Z :=
+Definition err_base (e : effect) : Z :=
   match e with
-  | CtrlOpen | CtrlClose | GenApiFetch | EnableStreaming | DisableStreaming => E_CTRL_IO
-  | StrmOpen | StrmClose | LoopStart | LoopStop => E_STRM_IO
+  | CtrlOpen | CtrlClose | GenApiFetch | EnableStreaming | DisableStreaming => E_CTRL
+  | StrmOpen | StrmClose | LoopStart | LoopStop => E_STRM
   | SetTLParamsLocked _ | AcqStart | AcqStop | GenApiRead => E_GENAPI_DEVICE
   | LoadCtxt _ _ _ | ClearCache => 0
   end.
+(* the fault is passed on unchanged: same class, wrapped by the layer it went through *)
+Definition err_of (e : effect) (cls : Z) : Z := err_base e + cls.
+Arguments err_of : simpl never.
 
 Definition upd_ctx (f : ctx -> ctx) (s : cam) : cam :=
   {| opened_ctrl := opened_ctrl s; opened_strm := opened_strm s;
@@ -138,9 +147,11 @@ Definition apply_eff (e : effect) (s : cam) : cam :=
   end.
 
 (* ---- the monad -------------------------------------------------------- *)
-Record mst := { m_cam : cam; m_tr : list effect; m_ops : nat; m_failed : option effect }.
+(* m_att: the device log of the call — every operation ATTEMPTED, in order, failed or not *)
+Record mst := { m_cam : cam; m_tr : list effect; m_ops : nat; m_att : list effect;
+                m_failed : option (effect * Z) }.
 
-Definition M (A : Type) : Type := (nat -> bool) -> mst -> outcome A * mst.
+Definition M (A : Type) : Type := (nat -> option Z) -> mst -> outcome A * mst.
 
 Definition ret {A} (a : A) : M A := fun _ s => (Ok a, s).
 Definition fail {A} (e : Z) : M A := fun _ s => (Err e, s).
@@ -158,14 +169,18 @@ Definition get : M cam := fun _ s => (Ok (m_cam s), s).
 
 Definition do_op (e : effect) : M unit := fun pl s =>
   let k := m_ops s in
-  if pl k
-  then (Err (err_of e), {| m_cam := m_cam s; m_tr := m_tr s; m_ops := S k; m_failed := Some e |})
-  else (Ok tt, {| m_cam := apply_eff e (m_cam s); m_tr := m_tr s ++ [e]; m_ops := S k;
-                  m_failed := m_failed s |}).
+  match pl k with
+  | Some cls =>
+      (Err (err_of e cls), {| m_cam := m_cam s; m_tr := m_tr s; m_ops := S k; m_att := m_att s ++ [e];
+                             m_failed := Some (e, cls) |})
+  | None =>
+      (Ok tt, {| m_cam := apply_eff e (m_cam s); m_tr := m_tr s ++ [e]; m_ops := S k;
+                 m_att := m_att s ++ [e]; m_failed := m_failed s |})
+  end.
 
 Definition emit (e : effect) : M unit := fun _ s =>
   (Ok tt, {| m_cam := apply_eff e (m_cam s); m_tr := m_tr s ++ [e]; m_ops := m_ops s;
-             m_failed := m_failed s |}).
+             m_att := m_att s; m_failed := m_failed s |}).
 
 Definition need (b : bool) (e : Z) : M unit := if b then ret tt else fail e.
 
@@ -258,31 +273,35 @@ Definition call_body (fx : bool) (c : call) : M Z :=
   end.
 
 (* result of one call *)
-Record callres := { r_res : outcome Z; r_effs : list effect; r_nops : nat;
-                    r_failed : option effect; r_cam : cam }.
+Record callres := { r_res : outcome Z; r_effs : list effect; r_nops : nat; r_atts : list effect;
+                    r_failed : option (effect * Z); r_cam : cam }.
 
-Definition run_call (fx : bool) (c : call) (pl : nat -> bool) (s : cam) : callres :=
-  let '(r, m) := call_body fx c pl {| m_cam := s; m_tr := []; m_ops := 0%nat; m_failed := None |} in
-  {| r_res := r; r_effs := m_tr m; r_nops := m_ops m; r_failed := m_failed m; r_cam := m_cam m |}.
+Definition run_call (fx : bool) (c : call) (pl : nat -> option Z) (s : cam) : callres :=
+  let '(r, m) := call_body fx c pl {| m_cam := s; m_tr := []; m_ops := 0%nat; m_att := []; m_failed := None |} in
+  {| r_res := r; r_effs := m_tr m; r_nops := m_ops m; r_atts := m_att m; r_failed := m_failed m;
+     r_cam := m_cam m |}.
 
 (* A session: the calls in order; the plan says which (call index, operation index) fail. *)
-Fixpoint run_from (fx : bool) (pl : nat -> nat -> bool) (i : nat) (s : cam) (cs : list call)
+Fixpoint run_from (fx : bool) (pl : nat -> nat -> option Z) (i : nat) (s : cam) (cs : list call)
   : list callres :=
   match cs with
   | [] => []
   | c :: q => let r := run_call fx c (pl i) s in r :: run_from fx pl (S i) (r_cam r) q
   end.
 
-Definition run (fx : bool) (pl : nat -> nat -> bool) (cs : list call) : list callres :=
+Definition run (fx : bool) (pl : nat -> nat -> option Z) (cs : list call) : list callres :=
   run_from fx pl 0%nat cam0 cs.
 
 Definition trace_of (rs : list callres) : list effect := concat (map r_effs rs).
 Definition final_from (s : cam) (rs : list callres) : cam := last (map r_cam rs) s.
 Definition final (rs : list callres) : cam := final_from cam0 rs.
 
-Definition no_failure : nat -> nat -> bool := fun _ _ => false.
-Definition plan_of (l : list (nat * nat)) : nat -> nat -> bool :=
-  fun i j => existsb (fun p => Nat.eqb (fst p) i && Nat.eqb (snd p) j) l.
+Definition no_failure : nat -> nat -> option Z := fun _ _ => None.
+Definition plan_of (l : list (nat * nat * Z)) : nat -> nat -> option Z :=
+  fun i j => match find (fun p => Nat.eqb (fst (fst p)) i && Nat.eqb (snd (fst p)) j) l with
+             | Some p => Some (snd p)
+             | None => None
+             end.
 
 (* ---- canonical printing for the correspondence (format of rust/h_camera) ---- *)
 Definition eff_code (e : effect) : list Z :=
@@ -307,8 +326,8 @@ Definition flags_of (s : cam) : Z :=
 Definition show_call (r : callres) : list Z :=
   let evs := concat (map eff_code (r_effs r)) in
   [match r_res r with Ok _ => 0 | Err e => e | Panic => 2 end;
-   match r_failed r with Some e => hd 0 (eff_code e) | None => 0 end;
-   Z.of_nat (r_nops r); zlen evs] ++ evs ++
+   match r_failed r with Some (e, _) => hd 0 (eff_code e) | None => 0 end;
+   zlen (r_atts r)] ++ concat (map eff_code (r_atts r)) ++ [zlen evs] ++ evs ++
   [match r_res r with Ok v => v | _ => -1 end; flags_of (r_cam r)].
 
 Definition call_of_Z (z : Z) : call :=
@@ -319,14 +338,14 @@ Definition call_of_Z (z : Z) : call :=
        CLoad {| x_parses := v <? 27; x_tl := v mod 3 =? 0; x_start := (v / 3) mod 3 =? 0;
                 x_stop := (v / 9) mod 3 =? 0 |}.
 
-Fixpoint pairs_of (l : list Z) : list (nat * nat) :=
+Fixpoint triples_of (l : list Z) : list (nat * nat * Z) :=
   match l with
-  | a :: b :: q => (Z.to_nat a, Z.to_nat b) :: pairs_of q
+  | a :: b :: c :: q => (Z.to_nat a, Z.to_nat b, c) :: triples_of q
   | _ => []
   end.
 
 Definition cam_case (fx : bool) (calls plan : list Z) : list Z :=
-  0 :: concat (map show_call (run fx (plan_of (pairs_of plan)) (map call_of_Z calls))).
+  0 :: concat (map show_call (run fx (plan_of (triples_of plan)) (map call_of_Z calls))).
 
 (* ---- vocabulary of the C16 statements --------------------------------- *)
 (* a call within the property's quantifier for "no device operation failed": start with the
@@ -345,17 +364,29 @@ Definition clean (s : cam) : Prop :=
   cache_nonempty s = false.
 
 (* operation j is the first one the plan fails *)
-Definition first_fail (plc : nat -> bool) (j : nat) : Prop :=
-  plc j = true /\ forall k, (k < j)%nat -> plc k = false.
+Definition first_fail (plc : nat -> option Z) (j : nat) (cls : Z) : Prop :=
+  plc j = Some cls /\ forall k, (k < j)%nat -> plc k = None.
+
+(* the fallible operations among the effects (device / stream accesses; LoadCtxt and ClearCache are
+   host-side steps) *)
+Definition is_access (e : effect) : bool :=
+  match e with LoadCtxt _ _ _ | ClearCache => false | _ => true end.
 
 (* One session with every single failure point, for the correspondence: the failure-free run, then
    for every call i and every operation j < (operations the failure-free run of call i attempts) the
-   run under the plan {(i, j)}; each output is followed by the separator -9. *)
-Definition cam_family (fx : bool) (calls : list Z) : list Z :=
+   run under the plan {(i, j, k)} for every fault class k of [classes i j]; each output is followed by
+   the separator -9. *)
+Definition cam_family (fx : bool) (calls : list Z) (classes : nat -> nat -> list Z) : list Z :=
   let cs := map call_of_Z calls in
   let base := run fx no_failure cs in
   (cam_case fx calls [] ++ [-9]) ++
   concat (map (fun ir : nat * callres =>
-                 concat (map (fun j => cam_case fx calls [Z.of_nat (fst ir); Z.of_nat j] ++ [-9])
+                 concat (map (fun j =>
+                               concat (map (fun k => cam_case fx calls [Z.of_nat (fst ir); Z.of_nat j; k] ++ [-9])
+                                           (classes (fst ir) j)))
                              (seq 0 (r_nops (snd ir)))))
               (combine (seq 0 (length base)) base)).
+
+Definition all_classes : nat -> nat -> list Z := fun _ _ => [0; 1; 2; 3; 4; 5; 6; 7].
+Definition one_class (salt : Z) : nat -> nat -> list Z :=
+  fun i j => [(salt + Z.of_nat i + Z.of_nat j) mod 8].
